@@ -33,6 +33,15 @@ const c13NShapes = 21
 
 const c13NSym = 3 * c13NShapes // 21 shapes x {call A, call B, unknown id}
 
+func c13ShapeIndex(name string) int {
+	for i, s := range c13Shapes {
+		if s == name {
+			return i
+		}
+	}
+	panic("shape " + name)
+}
+
 func c13Payload(n int) []byte { return []byte(fmt.Sprintf("resp-%d", n)) }
 
 // c13Envelope builds response number n of shape sym for the given id; it returns the payload
@@ -109,10 +118,10 @@ func c13List(tier string) []c13Case {
 		stats   bool
 		maxLen  int
 	}
-	cfgs := []cfg{{"unary+stream", false, 3}, {"stream+stream", true, 2}, {"unary+stream", true, 2}, {"stream+stream", false, 2}}
+	cfgs := []cfg{{"unary+stream", false, 3}, {"stream+stream", true, 2}, {"unary+stream", true, 2}, {"stream+stream", false, 2}, {"unary+abandoned-stream", false, 2}}
 	batch := int64(3000)
 	if tier == "thorough" {
-		cfgs = []cfg{{"unary+stream", false, 4}, {"stream+stream", true, 3}, {"unary+stream", true, 3}, {"stream+stream", false, 3}}
+		cfgs = []cfg{{"unary+stream", false, 4}, {"stream+stream", true, 3}, {"unary+stream", true, 3}, {"stream+stream", false, 3}, {"unary+abandoned-stream", false, 3}}
 		batch = 30000
 	}
 	for _, cf := range cfgs {
@@ -182,7 +191,9 @@ func c13One(tier string, c c13Case, syms []int, res *core.Result, desc func() st
 		opts = append(opts, goat.WithStatsHandler(nopStats{}))
 	}
 	cc := goat.NewClientConn(l.A, "c0", "srv", opts...)
-	A := &c13Call{unary: c.Pairing == "unary+stream", tag: "A", method: svc.MBidi}
+	A := &c13Call{unary: c.Pairing != "stream+stream", tag: "A", method: svc.MBidi}
+	abandonB := c.Pairing == "unary+abandoned-stream"
+	bctx := svc.NewManualCtx(context.Background())
 	B := &c13Call{tag: "B", method: svc.MBidi}
 	if A.unary {
 		A.method = svc.MUnary
@@ -207,10 +218,22 @@ func c13One(tier string, c c13Case, syms []int, res *core.Result, desc func() st
 		w.Add(1)
 		go func() {
 			defer w.Done()
-			s, err := svc.Open(context.Background(), cc, "bidi", cl.tag, nil)
+			var sctx context.Context = context.Background()
+			if abandonB && cl.tag == "B" {
+				sctx = bctx
+			}
+			s, err := svc.Open(sctx, cc, "bidi", cl.tag, nil)
 			if err != nil {
 				cl.mu.Lock()
 				cl.err, cl.finished = err, true
+				cl.mu.Unlock()
+				return
+			}
+			if abandonB && cl.tag == "B" {
+				// this caller never receives; it cancels after the first response envelope and
+				// never looks at the stream again
+				cl.mu.Lock()
+				cl.err, cl.finished = context.Canceled, true
 				cl.mu.Unlock()
 				return
 			}
@@ -268,6 +291,13 @@ func c13One(tier string, c c13Case, syms []int, res *core.Result, desc func() st
 			l.Kill()
 			return
 		}
+		if abandonB && n == 0 {
+			quiet(tier)
+			bctx.Cancel()
+		}
+	}
+	if (len(syms)+syms[0])%2 == 0 {
+		l.A.SetReadErr(io.EOF) // how net.Conn based transports report the peer closing
 	}
 	// then the connection is closed: the client's read fails after exactly these envelopes
 	l.A.FailReadAfter(len(syms))
@@ -372,6 +402,14 @@ func c13Run(tier string, seed int64, idx int) *core.Result {
 			for j := range syms {
 				syms[j] = r.Intn(c13NSym)
 			}
+			if c.Pairing == "unary+abandoned-stream" && i < 12 {
+				// directed: k bodies for the abandoned stream, then the reply for the other call
+				syms = nil
+				for k := 0; k < 2+i%6; k++ {
+					syms = append(syms, c13NShapes+c13ShapeIndex("body"))
+				}
+				syms = append(syms, c13ShapeIndex("unary-reply"))
+			}
 			run(syms)
 		}
 		res.NonTrivial = true
@@ -397,7 +435,7 @@ func init() {
 	core.Register(&core.Prop{
 		ID:    "C13",
 		Level: "exploration",
-		Rule:  "alphabet = 21 response shapes x addressed to {call A, call B, an unknown id} (63 symbols); a scripted server sends EVERY sequence up to length 3 (quick) / 4 (thorough) for the pairing unary+stream without stats handler and up to 2 / 3 for stream+stream and for both pairings with a stats handler, to a real client with the two calls outstanding (every accessor - Invoke, Header, receive loop, Trailer - in its own goroutine), then the connection is closed after exactly those envelopes; plus seeded random sequences of length 4..33. Oracle: process alive, every operation returned at the final state, every message returned is carried in order by an envelope addressed to that call, unary success has data, stream io.EOF only after a successful end addressed to it.",
+		Rule:  "alphabet = 21 response shapes x addressed to {call A, call B, an unknown id} (63 symbols); a scripted server sends EVERY sequence up to length 3 (quick) / 4 (thorough) for the pairing unary+stream without stats handler and up to 2 / 3 for stream+stream and for both pairings with a stats handler, to a real client with the two calls outstanding (every accessor - Invoke, Header, receive loop, Trailer - in its own goroutine), then the connection is closed after exactly those envelopes (read error: a custom error or io.EOF); a fifth configuration pairs the unary call with a stream whose caller never receives, cancels after the first envelope and never looks at it again (lengths up to 2 / 3, plus directed sequences of 2..7 bodies for it followed by the unary reply); plus seeded random sequences of length 4..33. Oracle: process alive, every operation returned at the final state, every message returned is carried in order by an envelope addressed to that call, unary success has data, stream io.EOF only after a successful end addressed to it.",
 		Plan:  func(tier string, seed int64) int { return len(c13List(tier)) },
 		Run:   c13Run,
 		Exhaustive: func(string) bool { return true },
